@@ -1,7 +1,33 @@
 import ConfModel.Driver.Common
+import ConfModel.Driver.C07
 namespace ConfModel.Driver.C01
-open Lean ConfModel.Driver
+open Lean ConfModel.Driver ConfModel.Config ConfModel.Library ConfModel.Driver.C07
 
-def handle : Handler := fun op _inp _impl => bad ("C01: unknown op " ++ op)
+/-- C01: the number of permutations the Lean models of config expansion (C06) and suite expansion
+(C07) predict for one shipped run — the embedded corpus (abstracted by the harness), the config
+cases, the run mode — next to what the real library computes.  `model` carries the predicted
+counts: the library itself and `allPermutations` with the gRPC client (`allTF`, server-mode
+runs) or the gRPC server (`allFT`, client-mode runs) added. -/
+def handle : Handler := fun op inp impl =>
+  match op with
+  | "count" =>
+    if !(isNull (field impl "panic")) then
+      { agree := false, holds := false, why := "panic: " ++ str (field impl "panic") } else
+    let suites := (arr (field inp "suites")).map suiteOf
+    let codes := sortedDistinct (natList (field inp "cases"))
+    let mode := Mode.ofNum (nat (field inp "mode"))
+    let bm := bitmap codes
+    let inCases : Case → Bool := fun c => bm.get! c.code == 1
+    match newLibrary pathJoin suites inCases mode with
+    | .error e => { agree := str (field impl "err") != "", holds := true, nontrivial := false,
+                    model := Json.mkObj [("err", toString (repr e))] }
+    | .ok lib =>
+      let ft := (allPermutations false true lib).length
+      let tf := (allPermutations true false lib).length
+      { agree := str (field impl "err") == "" && nat (field impl "perms") == lib.length &&
+                 nat (field impl "allFT") == ft && nat (field impl "allTF") == tf,
+        holds := true, nontrivial := lib.length > 1,
+        model := Json.mkObj [("perms", lib.length), ("allFT", ft), ("allTF", tf), ("config", str (field inp "config")), ("mode", nat (field inp "mode"))] }
+  | _ => bad ("C01: unknown op " ++ op)
 
 end ConfModel.Driver.C01
